@@ -1,6 +1,7 @@
 import Corankco.Props.C11
 import Corankco.Props.C13b
 import Corankco.Props.C02b
+import Corankco.Props.C02c
 /-
   C11b — the cheapest pairwise placement KwikSort follows at every recursion step (tie preferred, then before) does not
   depend on the order of the input rankings.
@@ -12,6 +13,12 @@ theorem C11_whereSpec_perm (S : Scheme) (D D' : Dataset) (hp : D.Perm D') (p e :
     Spec.whereSpec S D p e = Spec.whereSpec S D' p e := by
   unfold Spec.whereSpec
   rw [C13_before_perm S D D' hp, C13_after_perm S D D' hp, C02_tied_perm S D D' hp]
+
+/-- … nor on the names of the elements. -/
+theorem C11_whereSpec_rename {f : Elem → Elem} (hf : Function.Injective f) (S : Scheme) (D : Dataset) (p e : Elem) :
+    Spec.whereSpec S (D.map fun r => r.map fun b => b.map f) (f p) (f e) = Spec.whereSpec S D p e := by
+  unfold Spec.whereSpec
+  rw [C13_before_rename hf, C13_after_rename hf, C02_tied_rename hf]
 
 /-- Non-vacuity: a pair whose cheapest placement is a tie, in two orders of the same rankings. -/
 example :
